@@ -165,7 +165,7 @@ def build_pool(seed, tier):
 
 
 def call_sig(step):
-    c = {k: v for k, v in step.items() if k not in ("comp", "exhaust", "reuse_dialect")}
+    c = {k: v for k, v in step.items() if k not in ("comp", "exhaust", "reuse_dialect", "abort_at")}
     return common.short_hash(c, 10)
 
 
@@ -173,7 +173,7 @@ def call_sig(step):
 
 
 def _alone(call, tp, hashseed):
-    step = {k: v for k, v in call.items() if k not in ("comp", "exhaust", "reuse_dialect")}
+    step = {k: v for k, v in call.items() if k not in ("comp", "exhaust", "reuse_dialect", "abort_at")}
     step["comp"] = "fresh"
     r = tp.run(hashseed, {"record": {"config": {}, "steps": [step]}}, timeout=120)
     if "outputs" not in r:
@@ -255,7 +255,7 @@ def generate(prop, run_seed, tier):
     pool = build_pool(common.env_seed(), tier)
     hs = rng.choice(hashseeds(tier))
     faulted = rng.random() < 0.6
-    all_faults = ["failing_step", "stack_exhaustion", "gc", "garbage"]
+    all_faults = ["failing_step", "stack_exhaustion", "gc", "garbage", "abort_generate"]
     faults = sorted(rng.sample(all_faults, rng.randint(1, len(all_faults)))) if faulted else []
     cfg = {"hashseed": hs, "faults": faults,
            "garbage": rng.choice([1000, 20000, 150000]) if "garbage" in faults else 0,
@@ -291,6 +291,8 @@ def generate(prop, run_seed, tier):
             c["comp"] = "fresh"
         if "stack_exhaustion" in faults and rng.random() < 0.06:
             c["exhaust"] = rng.randrange(10, 120)
+        if "abort_generate" in faults and c.get("op") == "generate" and c["comp"] != "fresh" and rng.random() < 0.35:
+            c["abort_at"] = rng.randrange(1, 40)
         steps.append(c)
     return {"engine": "histsim", "config": cfg, "steps": steps}
 
@@ -307,7 +309,7 @@ def execute(record, state):
     tp = state["tp"]
     cfg = record["config"]
     steps = record["steps"]
-    faults = {"failing_step": 0, "stack_exhaustion_armed": 0, "stack_exhaustion": 0, "gc_op": 0, "garbage_prealloc": 1 if cfg.get("garbage") else 0,
+    faults = {"failing_step": 0, "abort_generate_armed": 0, "abort_generate": 0, "stack_exhaustion_armed": 0, "stack_exhaustion": 0, "gc_op": 0, "garbage_prealloc": 1 if cfg.get("garbage") else 0,
               "hashseed_nonzero": 1 if cfg.get("hashseed") else 0}
     probes = {"reused_after_error": 0, "reused_steps": 0, "steps_sharing_dialect": 0, "commutative_inputs": 0, "ref_exception_steps": 0}
     r = tp.run(cfg.get("hashseed", 0), {"record": record, "cold_tables": cold_tables(tp)}, timeout=150)
@@ -360,6 +362,12 @@ def execute(record, state):
                 comp_failed.add(ckey)
             if a[0] == "exc":
                 faults["failing_step"] += 1
+        if step.get("abort_at") is not None:
+            faults["abort_generate_armed"] += 1
+            if got != a:
+                faults["abort_generate"] += 1
+                comp_failed.add(ckey)
+            continue  # the injected abort itself is not judged
         if step.get("exhaust") is not None:
             # The injected fault itself is never judged (sqlglot may surface the RecursionError as one of its own
             # errors, e.g. TokenError); what is judged is every step that follows on the same components.
@@ -407,7 +415,7 @@ def _short(o):
 
 def _show(step):
     s = "%s[%s]" % (step["op"], step.get("comp", "fresh"))
-    for k in ("rule", "read", "write", "error_level", "opts", "schema", "column", "exhaust"):
+    for k in ("rule", "read", "write", "error_level", "opts", "schema", "column", "exhaust", "abort_at"):
         if step.get(k) not in (None, {}, ""):
             s += " %s=%s" % (k, step[k])
     if "sql" in step:
@@ -449,7 +457,7 @@ def simplify_record(rec, violation, state, same):
             except Exception:
                 pass
     for i in range(len(rec["steps"])):
-        for key in ("exhaust",):
+        for key in ("exhaust", "abort_at"):
             if rec["steps"][i].get(key) is not None:
                 r2 = copy.deepcopy(rec)
                 r2["steps"][i].pop(key)
